@@ -67,12 +67,14 @@ def r_shift(ctx, which=('obtain_latters', 'obtain_formers'), with_latter=False):
         if len(apps) != 1:
             raise AnalysisError("rule R-SHIFT: %s appends at %d sites" % (name, len(apps)))
         loop, term, nd = apps[0]
-        it = f.term(loop.stmt.iter, loop)
-        run.check(is_call(it, 'builtins.range') and it[2] == (('c', 4),), 'R-SHIFT', f, 'letter-range', loop.lineno,
-                  'letters enumerated as range(4) in A,C,G,T order',
-                  'the appended letter ranges over %s, not range(len("ACGT"))' % show(it),
+        from ..ctx import loop_vars
+        lv = [t for t in loop_vars(f, loop).values() if t is not None and t[0] == 'iter' and is_call(t[1], 'builtins.range')]
+        it = lv[0][1] if lv else f.term(loop.stmt.iter, loop)
+        run.check(bool(lv) and it[2] == (('c', 4),), 'R-SHIFT', f, 'letter-range', loop.lineno,
+                  'letters enumerated as 0..3 in A,C,G,T order',
+                  'the appended letter ranges over %s, not over the 4 letter indices' % show(f.term(loop.stmt.iter, loop)),
                   inputs='every vertex', nontrivial=False)
-        j = ('iter', it, loop.id)
+        j = lv[0] if lv else ('iter', it, loop.id)
         check_closed_form(ctx, f, name, term, c, j, K, nd.lineno, 'succ' if name == 'obtain_latters' else 'pred')
     if with_latter:
         f = ctx.p.func('dsw.spiderweb.remove_nasty_arc')
@@ -297,22 +299,21 @@ def r_mask(ctx):
         raise AnalysisError("R-MASK: verdict store outside a loop")
     loop = f.nodes[nd.loops[-1]]
     it = f.term(loop.stmt.iter, loop)
-    full = False
-    if is_call(it, 'builtins.range') and len(it[2]) == 1:
-        a = it[2][0]
-        if is_call(a, 'builtins.len') and a[2] and a[2][0][0] == 'v' and a[2][0][1] == mask_name:
-            full = True
-        elif is_pow4k(a, K):
-            full = True
-        elif a[0] != 'c' and any(mask_alloc(x) is not None for x in [a]):
-            full = False
-        elif is_call(a, 'builtins.len') and a[2] and any(mask_alloc(al) is not None for al in allocs if al) and \
-                a[2][0] in allocs:
-            full = True
+    from ..ctx import loop_vars
+    full, i = False, None
+    for name_, t in loop_vars(f, loop).items():
+        if t is None:
+            continue
+        # index over the mask itself (range(len(mask)) / enumerate(mask)), or range(4^K)
+        if t[0] == 'idx' and ((t[1][0] == 'v' and t[1][1] == mask_name) or t[1] in allocs):
+            full, i = True, t
+        elif t[0] == 'iter' and is_call(t[1], 'builtins.range') and len(t[1][2]) == 1 and is_pow4k(t[1][2][0], K):
+            full, i = True, t
+        elif i is None and t[0] in ('iter', 'idx'):
+            i = t
     run.check(full, 'R-MASK', f, 'loop-covers-all-indices', loop.lineno, 'loop ranges over every index of the mask',
               'the discovery loop ranges over %s, not over all 4^K indices' % show(it),
               inputs='the k-mers the loop skips')
-    i = ('iter', it, loop.id)
     idx_ok = tgt[0] == 'sub' and tgt[2] == i
     run.check(idx_ok, 'R-MASK', f, 'store-index', nd.lineno, 'mask[i] is stored for the loop index i',
               'the verdict is stored at %s, not at the loop index' % show(tgt), inputs='every k-mer')
